@@ -1,7 +1,7 @@
 (* C06 -- see tools/p_c06.py: the property predicate is defined in LayoutCases.v and evaluated inside Coq
    on the implementation's output; stage theorems are in the VM and lifting-pass developments. *)
 From Coq Require Import String.
-From SLX Require Import Base gen.ValueSig SymVal VM AbiT VmCases LayoutCases.
+From SLX Require Import Base gen.ValueSig gen.OpcodeTable gen.OpcodeSem SymVal Micro VM AbiT VmCases LayoutCases proofs.VmStorage.
 Open Scope N_scope.
 
 (* what passing the coverage predicate means: every literal key of every retired state that is not the
@@ -28,4 +28,41 @@ Proof.
   apply in_map_iff in Hs. destruct Hs as (e & He & Hine). exists e. auto.
 Qed.
 
+(* VM level, for every folding function, all limits, every key (literal or not, any 256-bit constant):
+   executing SLOAD / SSTORE -- in the form the translator read from the source on this run -- leaves a
+   generation for the key in the thread's storage ... *)
+Theorem C06_sload_leaves_generation : forall fold cfg ie c k s lim c',
+  op_sem memory_SLoad = Some [MPop 0 false; MSLoad 1 0 lim; MPush 1] ->
+  stack (o_st c) = k :: s ->
+  run_mops fold cfg ie [MPop 0 false; MSLoad 1 0 lim; MPush 1] c = (c', None) -> has_key (o_st c') k.
+Proof. intros fold cfg ie c k s lim c' _. apply sload_program_leaves_key. Qed.
+
+Theorem C06_sstore_leaves_generation : forall fold cfg ie c k v s c',
+  op_sem memory_SStore = Some [MPop 0 false; MPop 1 false; MSStore 0 1] ->
+  stack (o_st c) = k :: v :: s ->
+  run_mops fold cfg ie [MPop 0 false; MPop 1 false; MSStore 0 1] c = (c', None) -> has_key (o_st c') k.
+Proof. intros fold cfg ie c k v s c' _. apply sstore_program_leaves_key. discriminate. Qed.
+
+Theorem C06_translated_bodies_have_these_shapes :
+  (exists lim, op_sem memory_SLoad = Some [MPop 0 false; MSLoad 1 0 lim; MPush 1]) /\
+  op_sem memory_SStore = Some [MPop 0 false; MPop 1 false; MSStore 0 1].
+Proof. exact sload_sstore_shapes. Qed.
+
+(* ... no micro-operation of any opcode body ever removes a storage key ... *)
+Theorem C06_storage_keys_monotone : forall fold cfg ie ms c,
+  keys_kept (o_st c) (o_st (fst (run_mops fold cfg ie ms c))).
+Proof. exact run_mops_keeps. Qed.
+
+(* ... and a thread that leaves the queue has its state appended to the stored states unchanged (killed,
+   errored, out of gas or limit-retired alike: `advance` is the only way out of the queue) *)
+Theorem C06_retired_state_is_stored : forall m t rest forked,
+  v_stored (advance m t rest forked) = v_stored m \/
+  v_stored (advance m t rest forked) = v_stored m ++ [(tstate t, tvis t)].
+Proof. exact advance_stores. Qed.
+
 Print Assumptions C06_checker_meaning.
+Print Assumptions C06_sload_leaves_generation.
+Print Assumptions C06_sstore_leaves_generation.
+Print Assumptions C06_translated_bodies_have_these_shapes.
+Print Assumptions C06_storage_keys_monotone.
+Print Assumptions C06_retired_state_is_stored.
